@@ -103,6 +103,7 @@ def _main(a, prop, mod, t0, tmp):
         sweep = [(b, hs, f.result()) for b, hs, f in sweep]
     sweep_violations = []
     sweep_compared = 0
+    counters_extra = {}
     for b, hs, r in sweep:
         base = results[b].get('aux') or {}
         if r.get('status') != 'done':
@@ -115,10 +116,9 @@ def _main(a, prop, mod, t0, tmp):
                 if other[k][0] != v[0]:
                     sweep_violations.append({'mechanism': 'differs-across-hash-seeds', 'finding': None,
                                              'case': dict(v[1], hashseeds=[0, hs]), 'detail': {'hashseed': hs, 'digests': [v[0], other[k][0]]}})
-        missing = set(base) ^ set(other)
-        if missing:
-            sweep_violations.append({'mechanism': 'case-set-differs-across-hash-seeds', 'finding': None,
-                                     'case': {'batch': b, 'hashseeds': [0, hs]}, 'detail': {'n': len(missing)}})
+        # cases present on one side only: a batch that stopped on its time budget got less far (load, not lark);
+        # counted, never a verdict
+        counters_extra['hashseed-cases-on-one-side-only'] = counters_extra.get('hashseed-cases-on-one-side-only', 0) + len(set(base) ^ set(other))
         results.append({'status': 'done', 'counters': {'hashseed-sweep-runs': 1}})
 
     counters, monitors, max_steps, anchors = {}, {}, {}, {}
@@ -145,6 +145,7 @@ def _main(a, prop, mod, t0, tmp):
     violations.extend(sweep_violations[:50])
     if hashseeds:
         counters['hashseed-comparisons'] = sweep_compared
+        counters.update(counters_extra)
 
     known = load_known()
     known_seen = {}
